@@ -9,6 +9,7 @@ import (
 	"fmt"
 	"strings"
 	"testing"
+	"time"
 
 	ag "verif/harness/internal/ammogen"
 	"verif/harness/internal/pand"
@@ -541,7 +542,10 @@ func fuzzAmmo(f *testing.F, name, format string) {
 		if format == fmtGRPC && c.Passes == 0 && isKnown(fGrpcEmptySpin) {
 			c.Passes = 2
 		}
-		fuzzVerdict(t, checkAmmo(c, nil))
+		start := time.Now()
+		err := checkAmmo(c, nil)
+		slowLog(start, fmt.Sprintf("%s mode=%d", name, mode), data)
+		fuzzVerdict(t, err)
 	})
 }
 
